@@ -5,3 +5,4 @@ import NaunetProps.C02
 import NaunetProps.C04
 import NaunetProps.C03
 import NaunetProps.C13
+import NaunetProps.C19
